@@ -212,8 +212,11 @@ func newBreaker() *instance {
 	h := statusHandler(&served)
 	var fallbacks atomic.Int64
 	fb := http.HandlerFunc(func(w http.ResponseWriter, r *http.Request) { fallbacks.Add(1); w.WriteHeader(503) })
-	cb, err := cbreaker.New(h, "NetworkErrorRatio() > 0.5 || LatencyAtQuantileMS(50.0) > 10000 || ResponseCodeRatio(500, 600, 0, 600) > 0.9",
-		cbreaker.FallbackDuration(200*time.Microsecond), cbreaker.RecoveryDuration(3*time.Millisecond), cbreaker.CheckPeriod(50*time.Microsecond), cbreaker.Fallback(fb))
+	lg := &stateLog{}
+	var tripEffects atomic.Int64
+	cb, err := cbreaker.New(h, "LatencyAtQuantileMS(50.0) > 10000 || LatencyAtQuantileMS(99.0) > 10000 || NetworkErrorRatio() > 0.5 || ResponseCodeRatio(500, 600, 0, 600) > 0.9",
+		cbreaker.FallbackDuration(200*time.Microsecond), cbreaker.RecoveryDuration(3*time.Millisecond), cbreaker.CheckPeriod(5*time.Microsecond), cbreaker.Fallback(fb),
+		cbreaker.Logger(lg), cbreaker.OnTripped(effectFunc(func() { tripEffects.Add(1) })))
 	if err != nil {
 		panic(err)
 	}
@@ -227,16 +230,62 @@ func newBreaker() *instance {
 			if served.Load()+fallbacks.Load() != requests.Load() {
 				return fmt.Sprintf("%d requests: %d reached the handler + %d the fallback", requests.Load(), served.Load(), fallbacks.Load())
 			}
+			// the breaker logs every state change inside its lock: the sequence must follow the cycle
+			lg.mu.Lock()
+			seq := append([]string(nil), lg.states...)
+			lg.mu.Unlock()
+			prev, trips := "standby", int64(0)
+			legal := map[string]bool{"standby>tripped": true, "tripped>recovering": true, "recovering>standby": true, "recovering>tripped": true}
+			for i, st := range seq {
+				if !legal[prev+">"+st] {
+					return fmt.Sprintf("state change #%d is %s -> %s (sequence so far %v): concurrent requests drove the breaker outside standby->tripped->recovering->(standby|tripped)", i, prev, st, seq[:i+1])
+				}
+				if st == "tripped" {
+					trips++
+				}
+				prev = st
+			}
+			deadline := time.Now().Add(5 * time.Second)
+			for tripEffects.Load() < trips && time.Now().Before(deadline) {
+				time.Sleep(100 * time.Microsecond)
+			}
+			if got := tripEffects.Load(); got != trips {
+				return fmt.Sprintf("breaker entered tripped %d times, on-tripped effect ran %d times", trips, got)
+			}
 			return ""
 		},
 	}
 }
+
+type effectFunc func()
+
+func (f effectFunc) Exec() error { f(); return nil }
+
+// stateLog is a utils.Logger that keeps the breaker's own record of its state changes.
+type stateLog struct {
+	mu     sync.Mutex
+	states []string
+}
+
+func (l *stateLog) Debug(format string, args ...interface{}) {
+	if strings.Contains(format, "setting state to") && len(args) >= 2 {
+		if st, ok := args[1].(fmt.Stringer); ok {
+			l.mu.Lock()
+			l.states = append(l.states, st.String())
+			l.mu.Unlock()
+		}
+	}
+}
+func (l *stateLog) Info(string, ...interface{})  {}
+func (l *stateLog) Warn(string, ...interface{})  {}
+func (l *stateLog) Error(string, ...interface{}) {}
 
 func newMetrics(withReset bool) *instance {
 	m, err := memmetrics.NewRTMetrics()
 	if err != nil {
 		panic(err)
 	}
+	dst, _ := memmetrics.NewRTMetrics()
 	var records, neterr atomic.Int64
 	var perCode sync.Map
 	start := time.Now()
@@ -275,6 +324,8 @@ func newMetrics(withReset bool) *instance {
 				if withReset {
 					m.Reset()
 				}
+			case "append": // aggregate the live source into another metrics object
+				_ = dst.Append(m)
 			}
 		},
 		after: func() string {
@@ -555,6 +606,8 @@ func genOp(t *rapid.T, kind string) (op string, writer bool) {
 			return "hist", false
 		case 5:
 			return "export", false
+		case 7:
+			return "append", false
 		case 6:
 			if kind == "metrics+reset" {
 				return "reset", true
@@ -693,18 +746,24 @@ func TestC09_Fixed(t *testing.T) {
 				x := (g*7919 + i*104729) % 1000
 				switch {
 				case strings.HasPrefix(kind, "metrics"):
-					ops = append(ops, []string{"record:200:1", "record:502:3", "total", "netratio", "coderatio", "codes", "hist", "export", "record:500:9", "reset"}[x%10])
+					ops = append(ops, []string{"record:200:1", "record:502:3", "total", "netratio", "coderatio", "codes", "hist", "export", "record:500:9", "reset", "append", "record:418:2"}[x%12])
 				case kind == "ttlmap":
 					ops = append(ops, []string{"set:1", "set:2", "get:1", "len", "incr", "getint", "set:5", "set:6", "set:3"}[x%9])
 				case kind == "roundrobin" || kind == "rebalancer" || strings.HasPrefix(kind, "stack:"):
 					ops = append(ops, []string{"serve:200:s0:", "serve:502:s1:1", "upsert:1:3", "remove:1", "servers", "weight:2", "next", "serve:200:s2:2", "upsert:2:1", "remove:2", "upsert:0:2", "remove:0"}[x%12])
+				case kind == "breaker":
+					ops = append(ops, []string{"serve:502:s0:", "serve:502:s1:", "serve:504:s2:", "serve:200:s1:", "serve:500:s0:", "serve:502:s2:"}[x%6])
 				default:
 					ops = append(ops, []string{"serve:200:s0:", "serve:502:s1:", "serve:504:s2:", "serve:200:s1:", "serve:500:s0:"}[x%5])
 				}
 			}
 			p.Goroutines = append(p.Goroutines, ops)
 		}
-		for rep := 0; rep < 3; rep++ {
+		reps := 3
+		if kind == "breaker" {
+			reps = 15 // many trip/recovery cycles: overlapping condition checks are rare per cycle
+		}
+		for rep := 0; rep < reps; rep++ {
 			execProgram(t, "TestC09_Fixed", p)
 		}
 		vstat.Case("fixed|"+kind, true, []string{"fixed-program", "kind=" + strings.SplitN(kind, ":", 2)[0]}, map[string]any{"kind": kind, "goroutines": 6, "operations": 900})
